@@ -198,6 +198,7 @@ const (
 	modePlain = iota
 	modeWarm
 	modeReconnectInner
+	modeTopDown // inner flows are handed to their parents before their own connections are made
 )
 
 func nestedScenario(name string, d *shapeDesc) Scenario { return nestedScenarioOpt(name, d, modePlain) }
@@ -220,6 +221,7 @@ func nestedScenarioOpt(name string, d *shapeDesc, mode int) Scenario {
 		// (1)+(3): nested run against the reference interpreter
 		h = newH(root)
 		h.menu = menu
+		h.topDown = mode == modeTopDown
 		if warm {
 			h.noRefCheck = true
 			h.menu = func(hh *H, c call) []answer { return []answer{{val: nil, action: "zz"}} }
@@ -359,6 +361,9 @@ func genC10(tier string) []Scenario {
 		}
 		if d.slot >= 0 && (tier == "thorough" || d.inner.slot < 0) {
 			out = append(out, nestedScenarioOpt(fmt.Sprintf("nested-vs-flat after-standalone-runs shape#%d=%s", i, d), d, modeWarm))
+		}
+		if d.slot >= 0 && (tier == "thorough" || d.inner.slot < 0) {
+			out = append(out, nestedScenarioOpt(fmt.Sprintf("nested-vs-flat top-down-wiring shape#%d=%s", i, d), d, modeTopDown))
 		}
 	}
 	out = append(out, longLoopScenario(70))
